@@ -227,6 +227,14 @@ def gen_spec(rng):
             if all(not _overlap(_bbox(r), _bbox(o)) for o in sgs):
                 sgs.append(r)
     rng.shuffle(sgs)
+    if rng.random() < 0.12:
+        # PARENT labels that do not mirror the geometric nesting (the statement orders overlapping
+        # sub-grids by spacing only): a nested grid labelled NONE, a misspelt parent, a label pointing elsewhere
+        for sg in sgs:
+            if rng.random() < 0.5:
+                sg['parent'] = rng.choice(['NONE', 'NOSUCH', rng.choice(sgs)['name']])
+                if sg['parent'] == sg['name']:
+                    sg['parent'] = 'NONE'
     fields = []
     for sg in sgs:
         k = rng.random()
@@ -492,7 +500,8 @@ class C17(CheckBase):
                 if rng.random() < 0.3:
                     faults.append({'kind': 'torn', 'keep_frac': round(rng.random(), 4)})
                 else:
-                    faults.append({'kind': 'eio', 'op': rng.choice([-1] + [o['id'] for o in ops]), 'nth': rng.randrange(1, 70)})
+                    faults.append({'kind': 'eio', 'op': rng.choice([-1] + [o['id'] for o in ops]), 'nth': rng.randrange(1, 70),
+                                   'errno': rng.choice(['EIO', 'EIO', 'EINTR', 'ETIMEDOUT', 'EAGAIN'])})
         path = rng.choice(['/data/grids/test.gsb', 'grid.gsb', './sub/../grid file.gsb', '/sim/NTv2_0.gsb'])
         tr = {'property': 'C17', 'spec': spec, 'path': path, 'ops': ops, 'faults': faults}
         if not fault_run and rng.random() < 0.3:
@@ -634,6 +643,8 @@ class C17(CheckBase):
         for f in faults:
             if f['kind'] == 'eio':
                 eio_by_op.setdefault(f['op'], set()).add(f['nth'])
+                import errno as _errno
+                fs.eio_errno = getattr(_errno, f.get('errno', 'EIO'))
 
         def arm(opid):
             fs.eio_plan = {}
